@@ -15,6 +15,8 @@ EXPLANATION = (
     'own parameter with its own shape; H is handled with index 0 and W with index 1 of padding / kernel_size / stride.  Agreement '
     'with F.unfold as values and dilation / groups (unsupported by the library) are not decided.')
 
+NOT_DECIDED = 'agreement with F.unfold as values; dilation / groups (unsupported by the library)'
+
 
 def run(ctx: Ctx) -> None:
     ctx.do(TR.rule_alt_paths)
